@@ -11,6 +11,7 @@ mod c03;
 mod c04;
 mod c06;
 mod c10;
+mod c12;
 mod c15;
 mod c17;
 mod c18;
@@ -74,6 +75,7 @@ fn main() {
     "C07" => c07::run(&ctx),
     "C08" => c08::run(&ctx),
     "C10" => c10::run(&ctx),
+    "C12" => c12::run(&ctx),
     "C15" => c15::run(&ctx),
     "C17" => c17::run(&ctx),
     "C18" => c18::run(&ctx),
